@@ -1094,6 +1094,8 @@ class Ev:
                 if not isinstance(subject, prim[cname]) or p.kwd_attrs:
                     return False
                 return all(self.match(q, subject, binds) for q in p.patterns[:1]) and len(p.patterns) <= 1
+            if isinstance(subject, Sym) and "." in subject.name and subject.name.split(".")[0] == cname and not p.patterns and not p.kwd_attrs:
+                return True  # `case Kind() as k`: an enum member is an instance of its enumeration
             if not isinstance(subject, Obj) or cname not in subject.kinds:
                 return False
             if p.patterns:
